@@ -410,3 +410,286 @@ def check_c09(rep, tier, seed, wd, replay):
                     {"files": len(files), "cuts": ncuts, "disagreements": nd, "exhaustive": True,
                      "compressions": sorted(set(f["o"]["comp"] for f in files))})
     return cov, ["streaming decompressors are oracles: their behaviour on each truncated payload is recorded by calling the codec directly"]
+
+
+def flip_variants(r, data, lo, hi, tier):
+    """yield (description, new bytes): single-bit flips of every byte in [lo,hi), plus random overwrites/swaps"""
+    for pos in range(lo, hi):
+        bits = range(8) if tier != "quick" or (hi - lo) <= 96 else [r.randrange(8), r.randrange(8)]
+        for bit in set(bits):
+            b = bytearray(data); b[pos] ^= (1 << bit)
+            yield ("flip@%d.%d" % (pos, bit), bytes(b))
+    if hi - lo >= 2:
+        for _ in range(6):
+            b = bytearray(data)
+            a = r.randrange(lo, hi); n = r.randint(1, min(8, hi - a))
+            for i in range(a, a + n):
+                b[i] = r.randrange(256)
+            if bytes(b) != data:
+                yield ("overwrite@%d+%d" % (a, n), bytes(b))
+        for _ in range(4):
+            b = bytearray(data)
+            n = r.randint(1, max(1, (hi - lo) // 2))
+            a = r.randrange(lo, hi - n + 1); c = r.randrange(lo, hi - n + 1)
+            seg_a, seg_c = bytes(b[a:a + n]), bytes(b[c:c + n])
+            b[a:a + n] = seg_c
+            b[c:c + n] = seg_a
+            if bytes(b) != data:
+                yield ("swap@%d,%d+%d" % (a, c, n), bytes(b))
+
+
+@prop("C07")
+def check_c07(rep, tier, seed, wd, replay):
+    import random
+    r = random.Random(seed * 1000 + 7)
+    nfiles = 30 if tier == "quick" else 400
+    maxlen = 1200 if tier == "quick" else 6000
+    files, crashed = cl.written_files(seed * 1000 + 7, nfiles * 3, "c07f", wd, nmax=10, force={"crc": True})
+    files = [f for f in files if len(f["file"]) <= maxlen and (f["g"]["chunks"] or any(c[0] == "A" for c in f["calls"]))][:nfiles]
+    cases = []
+    budget = 6000 if tier == "quick" else 200000
+    for fi, f in enumerate(files):
+        data = f["file"]
+        try:
+            d = mcapspec.decode(data, cw.plain_lookup(f["g"]), skip_magic=f["o"]["skipmagic"])
+        except mcapspec.SpecError:
+            continue
+        emitinv = fi % 2
+        lo = {"validate": 1, "emitinvalid": emitinv, "cb": "full", "acrc": 1, "skipmagic": 1 if f["o"]["skipmagic"] else 0}
+        f["lo"] = lo
+        cases.append({"id": "%s_orig" % f["id"], "file": data, "lopts": lo, "base": f})
+        for k, ch in enumerate(d["chunks"]):
+            pay_lo = ch["offset"] + ch["length"] - ch["csize"]
+            pay_hi = ch["offset"] + ch["length"]
+            for desc, nb in flip_variants(r, data, pay_lo, pay_hi, tier):
+                if len(cases) < budget:
+                    cases.append({"id": "%s_k%d_%s" % (f["id"], k, desc), "file": nb, "lopts": lo, "base": f, "chunk": k, "kind": "chunk",
+                                  "single_byte": desc.startswith("flip"), "comp": ch["compression"], "crc": ch["crc"]})
+        for k, a in enumerate(d["attachments"]):
+            # attachment content: fields and data (not the record length prefix, not the crc itself)
+            lo_a, hi_a = a["offset"] + 9, a["offset"] + a["length"] - 4
+            for desc, nb in flip_variants(r, data, lo_a, hi_a, "quick"):
+                if len(cases) < budget and desc.startswith("flip"):
+                    cases.append({"id": "%s_a%d_%s" % (f["id"], k, desc), "file": nb, "lopts": lo, "base": f, "att": k, "kind": "att",
+                                  "pos": int(desc[5:].split(".")[0]) - lo_a, "alen": (len(a["name"]), len(a["media_type"]))})
+    go, model, nd = lex_corr(rep, cases, wd, "c07")
+    stats = {"chunk_damage": 0, "att_damage": 0, "detected": 0, "unchanged": 0, "uncompressed_single_byte": 0}
+    for c in cases:
+        g = go.get(c["id"])
+        probs = []
+        if g is not None and "kind" in c:
+            orig = go.get("%s_orig" % c["base"]["id"])
+            if g["panic"]:
+                probs.append("lexer crashed on damaged input: %s" % g["panic"])
+            elif orig and c["kind"] == "chunk":
+                stats["chunk_damage"] += 1
+                # events before the damaged chunk k must be identical; output either equals the original or an
+                # error / invalid-chunk token shows up no later than chunk k
+                same = g["events"] == orig["events"] and g["end"] == orig["end"]
+                if same:
+                    stats["unchanged"] += 1
+                    if c["comp"] == b"" and c["single_byte"] and c["crc"] != 0:
+                        probs.append("single-byte damage in an uncompressed chunk went undetected (CRC-32 guarantees detection)")
+                else:
+                    # find first difference
+                    n = next((i for i in range(min(len(g["events"]), len(orig["events"]))) if g["events"][i] != orig["events"][i]),
+                             min(len(g["events"]), len(orig["events"])))
+                    if n < len(g["events"]) and g["events"][n] != "invalidchunk":
+                        probs.append("damaged chunk yielded a record that differs from the original without an error first (event %d: %s)" % (n, g["events"][n][:80]))
+                    else:
+                        stats["detected"] += 1
+                        if c["comp"] == b"" and c["single_byte"]:
+                            stats["uncompressed_single_byte"] += 1
+            elif orig and c["kind"] == "att":
+                stats["att_damage"] += 1
+                ga = [e for e in g["events"] if e.startswith("att ")]
+                oa = [e for e in orig["events"] if e.startswith("att ")]
+                k = c["att"]
+                # flips in length fields re-frame the record; only content flips are guaranteed detectable
+                nlen, mlen = c["alen"]
+                in_len_field = (16 <= c["pos"] < 20) or (20 + nlen <= c["pos"] < 24 + nlen) or (24 + nlen + mlen <= c["pos"] < 32 + nlen + mlen)
+                if k < len(ga) and not in_len_field:
+                    f = ga[k].split(" ")
+                    if f[8] == f[9] and not f[8].startswith("err"):
+                        probs.append("altered attachment content but computed CRC equals parsed CRC (%s)" % ga[k][:80])
+                    else:
+                        stats["detected"] += 1
+        for p in probs:
+            rep.add_violation("oracle", "case %s: %s" % (c["id"], p), cl.lex_replay(c))
+        if c.get("_disagree"):
+            if c.get("kind") == "chunk" and c.get("comp") in (b"zstd", b"lz4") and not probs:
+                # the third-party stream decoders report a damaged frame checksum at a timing-dependent
+                # point (observed: the same input gives 'all data, no error' or 'error' on different runs);
+                # the decoder is an oracle, so only the property oracle decides these cases
+                stats["codec_timing_tolerated"] = stats.get("codec_timing_tolerated", 0) + 1
+            else:
+                rep.add_violation("correspondence", "case %s: %s" % (c["id"], c["_disagree"]), cl.lex_replay(c), failing_input=bool(probs))
+    cov = summarize(rep, len(cases), len(set(c["id"] for c in cases)),
+                    "files written with CRCs on (none/zstd/lz4/xor chunks); every byte of every chunk payload damaged by single-bit flips (all 8 bits per byte for short payloads and in the thorough tier), random multi-byte overwrites and range swaps; every attachment content byte flipped; lexer with ValidateChunkCRCs (EmitInvalidChunks on alternate files) compared with the model; oracle: output equals the undamaged output or an error/invalid-chunk token precedes any differing record; uncompressed single-byte damage must be detected; attachment computed CRC != parsed CRC",
+                    [cl.lex_replay(c)[:4] for c in cases[1:3]], dict(stats, files=len(files), disagreements=nd))
+    return cov, ["for compressed chunks detection is up to CRC-32 collisions of the decompressed bytes (explicit disjunct in theorem C07_chunk)"]
+
+
+@prop("C15")
+def check_c15(rep, tier, seed, wd, replay):
+    nfiles = 16 if tier == "quick" else 200
+    maxlen = 1200 if tier == "quick" else 8000
+    files, crashed = cl.written_files(seed * 1000 + 15, nfiles * 3, "c15f", wd, nmax=10)
+    files = [f for f in files if len(f["file"]) <= maxlen][:nfiles]
+    cases = []
+    for fi, f in enumerate(files):
+        validate = fi % 2
+        lo = {"validate": validate, "cb": "full", "skipmagic": 1 if f["o"]["skipmagic"] else 0}
+        f["lo"] = lo
+        cases.append({"id": "%s_ref" % f["id"], "file": f["file"], "lopts": lo, "src": {"seek": 1}, "base": f})
+        for frag in ("one", "halving", "rand1", "dataeof"):
+            for seek in (0, 1):
+                cases.append({"id": "%s_%s_%d" % (f["id"], frag, seek), "file": f["file"], "lopts": lo,
+                              "src": {"seek": seek, "frag": frag}, "base": f, "frag": frag})
+        for pos in range(len(f["file"]) + 1):
+            frag = ("all", "one", "rand2")[pos % 3]
+            cases.append({"id": "%s_fail%d" % (f["id"], pos), "file": f["file"], "lopts": lo,
+                          "src": {"seek": pos % 2, "frag": frag, "fail": pos}, "base": f, "fail": pos})
+    go, model, nd = lex_corr(rep, cases, wd, "c15")
+    nfrag = nfail = 0
+    for c in cases:
+        g = go.get(c["id"])
+        ref = go.get("%s_ref" % c["base"]["id"])
+        probs = []
+        if g is not None and ref is not None:
+            if g["panic"]:
+                probs.append("lexer crashed: %s" % g["panic"])
+            elif "frag" in c:
+                nfrag += 1
+                if (g["new"], g["events"], g["end"]) != (ref["new"], ref["events"], ref["end"]):
+                    probs.append("result depends on how the source fragments its reads (%s)" % c["frag"])
+            elif "fail" in c:
+                nfail += 1
+                if g["new"] == "ok":
+                    if not events_prefix(g["events"], ref["events"]):
+                        probs.append("records before an injected I/O error at byte %d are not a prefix of the true sequence" % c["fail"])
+                    if g["end"] in ("err:eof", None):
+                        probs.append("read over a source failing at byte %d ended with a clean end-of-file" % c["fail"])
+                elif g["new"] != "err:badmagic":
+                    probs.append("NewLexer: %s" % g["new"])
+        for p in probs:
+            rep.add_violation("oracle", "case %s: %s" % (c["id"], p), cl.lex_replay(c))
+        if c.get("_disagree"):
+            rep.add_violation("correspondence", "case %s: %s" % (c["id"], c["_disagree"]), cl.lex_replay(c), failing_input=bool(probs))
+    cov = summarize(rep, len(cases), len(set(c["id"] for c in cases)),
+                    "files written by the real writer; each read through sources delivering 1 byte, halving sizes, random sizes, data together with EOF (seekable and not) and with an injected non-EOF error at every byte position 0..len (exhaustive per file) under three fragmentations; lexer compared with the model; oracle: fragmentation-independence, prefix + non-EOF error end, no crash",
+                    [cl.lex_replay(c)[:4] for c in cases[1:3]],
+                    {"files": len(files), "fragmentation_runs": nfrag, "fault_positions": nfail, "disagreements": nd, "exhaustive": True})
+    return cov, ["decoders' propagation of a source error is recorded per instance by calling the codec directly"]
+
+
+# ------------------------------------------------------------------ reader family
+import chk_read as cr  # noqa: E402
+
+
+def read_corr(rep, cases, wd, tag="read", compare_slots=True):
+    go, model, crashed = cr.run_read(cases, wd, tag)
+    for cmd, rc, err in crashed:
+        rep.add_violation("executor-crash", "%s exited %s: %s" % (cmd, rc, err), [], failing_input=False)
+    nd = 0
+    for c in cases:
+        d = cr.diff_read(go.get(c["id"]), model.get(c["id"]), compare_slots)
+        if d:
+            nd += 1
+            c["_disagree"] = d
+    return go, model, nd
+
+
+def report_case(rep, c, probs, replay_fn):
+    for p in probs:
+        rep.add_violation("oracle", "case %s: %s" % (c["id"], p), replay_fn(c), key=c.get("_key"))
+    if c.get("_disagree"):
+        rep.add_violation("correspondence", "case %s: %s" % (c["id"], c["_disagree"]), replay_fn(c), failing_input=bool(probs))
+
+
+def decode_written(f):
+    try:
+        return mcapspec.decode(f["file"], cw.plain_lookup(f["g"]), skip_magic=f["o"]["skipmagic"])
+    except mcapspec.SpecError:
+        return None
+
+
+@prop("C02")
+def check_c02(rep, tier, seed, wd, replay):
+    nfiles = 150 if tier == "quick" else 3000
+    files, crashed = cl.written_files(seed * 1000 + 2, nfiles, "c02f", wd, nmax=25, force={"skipmagic": False})
+    cases = []
+    for f in files:
+        d = decode_written(f)
+        if d is None:
+            continue
+        f["d"] = d
+        ops = [["info"], ["messages"]]
+        for a in d["attachments"]:
+            ops.append(["getatt", str(a["offset"])])
+        for m in d["metadata"]:
+            ops.append(["getmd", str(m["offset"])])
+        base = {"file": f["file"], "base": f}
+        cases.append(dict(base, id=f["id"] + "_idx", ropts=["mdcb"], ops=ops))
+        cases.append(dict(base, id=f["id"] + "_scan", ropts=["index:0", "mdcb"], ops=[["messages"]]))
+        cases.append(dict(base, id=f["id"] + "_log", ropts=["order:log"], ops=[["messages"]]))
+        cases.append(dict(base, id=f["id"] + "_rev", ropts=["order:rev", "mdcb"], ops=[["messages", "into"]]))
+    go, model, nd = read_corr(rep, cases, wd, "c02")
+    st = {"indexed_reads": 0, "fallback_scans": 0, "errors": 0, "random_access": 0, "md_callbacks": 0}
+    for c in cases:
+        g = go.get(c["id"])
+        probs = []
+        f = c["base"]
+        scan = go.get(f["id"] + "_scan")
+        if g and scan and scan["ops"] and g["ops"]:
+            sm = scan["ops"][0]
+            if any(o["panic"] for o in g["ops"]):
+                probs.append("reader crashed: %s" % [o["panic"] for o in g["ops"] if o["panic"]])
+            for o in g["ops"]:
+                h = o["head"] or ""
+                if h.startswith("messages ok"):
+                    if h.endswith("indexed"):
+                        st["indexed_reads"] += 1
+                    else:
+                        st["fallback_scans"] += 1
+                    if o["end"] == "err:eof":
+                        if c["id"].endswith(("_idx", "_scan")) and o["msgs"] != sm["msgs"]:
+                            probs.append("%s read in file order returned %d messages, sequential scan %d (sequences differ)" % (h[12:], len(o["msgs"]), len(sm["msgs"])))
+                        if c["id"].endswith(("_log", "_rev")) and sorted(o["msgs"]) != sorted(sm["msgs"]):
+                            probs.append("ordered read returned a different multiset of messages than the scan (%d vs %d)" % (len(o["msgs"]), len(sm["msgs"])))
+                    else:
+                        st["errors"] += 1
+                    # metadata callback: scan delivers all; indexed delivers the indexed ones
+                    if "mdcb" in c["ropts"] and o["end"] == "err:eof":
+                        want_all = ["md %s %s" % (cm.hx(m["name"]), ",".join("%s:%s" % (k.hex(), v.hex()) for k, v in sorted(m["metadata"])) or "-") for m in f["d"]["metadata"]]
+                        st["md_callbacks"] += len(o["mds"])
+                        if h.endswith("scan") and o["mds"] != want_all:
+                            probs.append("metadata callback during a sequential read received %d records, file has %d" % (len(o["mds"]), len(want_all)))
+                        if h.endswith("indexed"):
+                            idx_offs = [x["offset"] for x in f["d"]["summary"]["metadata_indexes"]]
+                            want = [w for w, m in zip(want_all, f["d"]["metadata"]) if m["offset"] in idx_offs]
+                            if o["mds"] != want:
+                                probs.append("metadata callback during an indexed read received %d records, %d are indexed" % (len(o["mds"]), len(want)))
+                elif h.startswith("messages err"):
+                    st["errors"] += 1
+                elif h.startswith("getatt"):
+                    st["random_access"] += 1
+                    off = int(c["ops"][g["ops"].index(o)][1])
+                    a = [x for x in f["d"]["attachments"] if x["offset"] == off][0]
+                    want = "getatt ok %d %d %s %s %d %s ok %d %d" % (a["log_time"], a["create_time"], cm.hx(a["name"]), cm.hx(a["media_type"]),
+                                                                    len(a["data"]), cm.hx(a["data"]), a["crc"], a["crc"])
+                    if h != want:
+                        probs.append("attachment at %d retrieved as %s, written %s" % (off, h[:100], want[:100]))
+                elif h.startswith("getmd"):
+                    st["random_access"] += 1
+                    off = int(c["ops"][g["ops"].index(o)][1])
+                    m = [x for x in f["d"]["metadata"] if x["offset"] == off][0]
+                    want = "getmd ok %s %s" % (cm.hx(m["name"]), ",".join("%s:%s" % (k.hex(), v.hex()) for k, v in sorted(m["metadata"])) or "-")
+                    if h != want:
+                        probs.append("metadata at %d retrieved as %s, written %s" % (off, h[:100], want[:100]))
+        report_case(rep, c, probs, cr.read_replay)
+    distinct = len(set((tuple(sorted(f["o"].items())), len(f["g"]["chunks"]) > 1) for f in files))
+    cov = summarize(rep, len(cases), distinct,
+                    "files written by the real writer under random configurations (all Skip* combinations, none/zstd/lz4/xor); per file: Info, Messages default (index), Messages UsingIndex(false), LogTime and Reverse order, every attachment and metadata record fetched by its offset, metadata callbacks; compared with the Reader model; oracle: indexed file-order sequence == scan sequence, ordered reads are permutations of the scan, never silently fewer messages, random-access content == decoded content, callback lists; distinct = distinct writer configurations",
+                    [cr.read_replay(c)[:5] for c in cases[:2]], dict(st, files=len(files), disagreements=nd))
+    return cov, ["xor-compressed chunks are unreadable through the index (no custom decompressor hook in Reader): error expected"]
